@@ -458,6 +458,37 @@ def call_impl(it):
         return {"err": type(e).__name__, "msg": str(e)[:200]}
 
 
+def history_on_output(res, it, rng):
+    """Histories on ONE output object: evaluate, evaluate again, change the unit costs of its input IN PLACE, evaluate
+    again.  Each evaluation must be the recount under the costs in force at that moment (state cached on the output
+    or keyed by the input shows here and nowhere else).  Returns False after a violation."""
+    from ..sr import costs_of
+
+    case, sol, mode = it["case"], it["sol"], it["mode"]
+    try:
+        out = build_output(case, sol, force_plain=True) if mode == "plain" else \
+            build_output(case, sol, ordered=(mode == "ordered"))
+    except Exception:  # noqa
+        return True
+    other = rand_costs(rng)
+    for step, costs in (("first evaluation", full_costs(case)), ("second evaluation of the same object", full_costs(case)),
+                        ("after the costs were changed in place", other),
+                        ("after the costs were changed back in place", full_costs(case))):
+        out.input.costs.clear()
+        out.input.costs.update(costs_of({"costs": costs}))
+        exp = recount(sol, mode, costs)
+        try:
+            got = enc_cost(out.cost())
+        except Exception as e:  # noqa
+            got = {"err": type(e).__name__}
+        res.dist["evaluation history on one output object"] += 1
+        if got != exp["total"]:
+            res.violation(f"cost() {step}: {got}, the recount under the costs in force is {exp['total']}",
+                          {**item_key(it), "history": [full_costs(case), other]}, expected=exp["total"], observed=got)
+            return False
+    return True
+
+
 def full_costs(case):
     c = {"spe": 0, "dup": 1, "hgt": 1, "floss": 1, "sloss": 1}
     c.update(case.get("costs", {}))
@@ -630,6 +661,9 @@ def run(ctx, res):
     res.notes.append(f"{n_ex} inputs = all inputs up to {4 if big else 3}x3 leaves, each on every valid mapping")
     for i in range(0, len(items), 20000):
         judge(ctx, res, items[i:i + 20000], check_valid=True)
+    for it in rng.sample(items, min(len(items), ctx.budget(300, 3000))):
+        if not history_on_output(res, it, rng):
+            break
     enumeration_check(ctx, res, [i for i in inputs if all_mappings_count(i["S"], i["O"]) <= 7000][: ctx.budget(25, 150)])
     cli_stream(ctx, res, ctx.budget(60, 300))
 
